@@ -446,6 +446,27 @@ func runExtract(c *Case, r *mon.Rec, rng *rand.Rand, payload []byte) {
 			check("strict extraction", v3)
 		}
 	}
+	// Field.ExtractFrom has a pointer receiver: called twice on the very same Field value it answers the same and leaves
+	// the definition as it was
+	for k := range fields {
+		fp := &fields[k]
+		orig := *fp
+		_, v0, _, perr := parsed(c, payload)
+		if perr != nil {
+			break
+		}
+		var a1, a2 any
+		var e1, e2 error
+		if p, _ := mon.Catch(func() { a1, e1 = fp.ExtractFrom(v0); a2, e2 = fp.ExtractFrom(v0) }); p {
+			continue
+		}
+		r.Eval(1)
+		if show(a1, e1) != show(a2, e2) || *fp != orig {
+			r.Violate(c, "result-depends-on-history", mon.Attrs{"accessor": "Field.ExtractFrom/same-field-twice", "type": int(orig.Type)},
+				fmt.Sprintf("field %+v: first read %s, second read %s, definition afterwards %+v", orig, show(a1, e1), show(a2, e2), *fp))
+			*fp = orig
+		}
+	}
 	// Field.ExtractFrom on one shared Registers view, forward then backward
 	for pass := 0; pass < 2; pass++ {
 		for k := range fields {
